@@ -78,6 +78,7 @@ def main(tier, replay=None):
         "certificate (feasible primal point, exact box-free dual), an unboundedness certificate (point + recession ray) or a Farkas "
         "infeasibility certificate and compares the recorded answer; non-trivial = certified class and answer agree",
         owner=lambda ev: PROP, replay=replay,
+        extra=lambda rep, rd: __import__("lpalgo").conformance(rep, rd, PROP, {"optimize"}, 200 if tier == "quick" else 4000, seed()),
         nontrivial=lambda ev, kind, detail: kind == "ok",
         sig_of=lambda ev, detail: {"detail": detail, "nrows": min(len(ev["rows"]), 1)},
     )
